@@ -55,16 +55,19 @@ func Dial(
 	}
 
 	nonTlsConnFn := func() (net.Conn, error) {
-		if c, ok, err := simDial(ctx, addr); ok {
-			return c, err
-		}
 		dialer := &net.Dialer{}
 		var err error
 		var nonTlsConn net.Conn
 		switch {
 		case strings.HasPrefix(addr, "/"):
+			if c, ok, err := simDial(ctx, "unix", addr); ok {
+				return c, err
+			}
 			nonTlsConn, err = dialer.DialContext(ctx, "unix", addr)
 		default:
+			if c, ok, err := simDial(ctx, "tcp", addr); ok {
+				return c, err
+			}
 			nonTlsConn, err = dialer.DialContext(ctx, "tcp", addr)
 		}
 		if err != nil {
